@@ -28,8 +28,8 @@ def self_edges(F):
                         continue
                     prov = prov or Prov(f)
                     a0 = prov.operand(t['args'][0])
-                    while a0[0] in ('ref', 'deref'):
-                        a0 = a0[1]
+                    # `self.m()` reborrows self (&mut *self collapses to the parameter); `(**self).m()` or
+                    # `self.inner.m()` delegate to a different object and are not edges of this graph
                     if not (a0[0] == 'param' and a0[1] == 1):
                         continue
                     # generic/dyn dispatch on self resolves to every impl: keep only same-type impls
@@ -139,7 +139,7 @@ ALLOC_EXCEPTIONS = {
 }
 
 
-@rule('ALLOC-TAINT', ['C06'], floor=12, thorough_configs=('nostd-xzlzip',))
+@rule('ALLOC-TAINT', ['C06'], floor={'def': 12, 'nostd-xzlzip': 7}, thorough_configs=('nostd-xzlzip',))
 def alloc_taint(ctx):
     """Every allocation size reachable from the decoder entry points is a constant, bounded by the
     type of a narrow header field, proportional to bytes actually held, the declared dictionary
